@@ -127,7 +127,7 @@ func main() {
 		Level: "exploration",
 		Rule: "exhaustive product: every Scalar operation x 9 mutable receiver types x 18 operand kinds per operand (16 scalar types + Real32/Real64 with derivative tracking on; all pairs for binary operations) x " +
 			"a value lattice (0, +-0.5, +-1, 2, 3, 7, -8, 100, -0.0, min/max of every storage type, +-Inf, NaN; branch points of the piecewise functions for unary operations) restricted to the values the operand type holds exactly; " +
-			"vector/matrix operations over all vectors of length<=2 (length 3 over 5 values) from 9 dense and 7 sparse-const container types; comparisons on all 16(+2) receiver types; all conversion/constructor methods x source type x 16 target types. " +
+			"vector/matrix operations over all vectors of length<=2 (length 3 over 5 values) plus every zero pattern (each non-empty set of positions exactly +0 / -0: leading, trailing, interleaved, all-zero; lengths 1..4, 2x2 matrices, pairs of patterns for VdotV) from 9 dense and 7 sparse-const container types, every receiver type compared on every pattern class (else harness error); comparisons on all 16(+2) receiver types; all conversion/constructor methods x source type x 16 target types. " +
 			"A case is evaluated when the library call was made; it counts as non-trivial when the property defines the answer for it (reference inside the operation's domain, operand representable in the receiver's type where the property reads operands through it, no implementation-defined float->int or overflowing conversion) so that the result was actually compared; all enumerated cases are distinct tuples",
 		Assume: []string{
 			"math.* of the Go standard library is the float64 reference for elementary functions; special functions (LogErfc, GammaP, BesselI, LogBesselI, Mlgamma) use the harness's own series/continued-fraction/asymptotic formulas, validated at start-up against closed forms, and a 1e-9 relative gate (accuracy is C13's subject)",
@@ -136,7 +136,7 @@ func main() {
 			"results or intermediates that overflow the storage type, and float->int conversions of NaN/out-of-range values, are implementation-defined in Go and excluded",
 			"x/0 on integer receivers: Go panics; an implementation is not judged there",
 			"a conversion/constructor asked for a type that cannot implement the requested interface (Const* as Scalar, non-magic as MagicScalar) may fail loudly",
-			"LogSmoothMax needs -Inf in the storage type and positive data: float receivers, x_i>0 only",
+			"LogSmoothMax needs -Inf in the storage type and non-negative data: float receivers, x_i>=0 (an entry that is exactly zero is inside the domain: it adds 0 to the weighted sum and e^0=1 to the normaliser); negative entries are outside",
 		},
 		Run:    run,
 		Replay: replay,
